@@ -56,7 +56,9 @@ func loadEngine(repo string, overlay map[string][]byte) (*Engine, error) {
 		return nil, fmt.Errorf("package errors: %s", strings.Join(e.loadErrors, "; "))
 	}
 	e.pkgs = pkgs
-	prog, _ := ssautil.AllPackages(pkgs, ssa.InstantiateGenerics)
+	// GlobalDebug adds DebugRef instructions (source identifier -> SSA value): they let site
+	// obligations name locals that are neither parameters, phis nor address-taken
+	prog, _ := ssautil.AllPackages(pkgs, ssa.InstantiateGenerics|ssa.GlobalDebug)
 	prog.Build()
 	e.prog = prog
 	e.fset = prog.Fset
